@@ -180,17 +180,19 @@ impl Prop for C02 {
         let thorough = tier == Tier::Thorough;
         let mut units = corpus_units(
             &Space {
-                k: if thorough { 2 } else { 1 },
-                ctx_limit: if thorough { 3 } else { 2 },
+                // thorough: the quick space with every width up to 200, two more layouts, every single-option
+                // deviation and deviated configurations under both style editions
+                k: 1,
+                ctx_limit: 2,
                 layouts: if thorough {
-                    vec![Layout::L0, Layout::LAll, Layout::LNone, Layout::LBlank(2), Layout::LTabs]
+                    vec![Layout::L0, Layout::LAll, Layout::LNone, Layout::LTabs]
                 } else {
                     vec![Layout::L0, Layout::LAll]
                 },
                 style_editions: vec![2015, 2024],
                 cfg_mode: if thorough { CfgMode::Dev1All } else { CfgMode::Dev1Relevant },
-                cfg_ctx_limit: if thorough { 3 } else { 1 },
-                l1: thorough,
+                cfg_ctx_limit: if thorough { 2 } else { 1 },
+                l1: false,
                 dev_editions: if thorough { vec![] } else { vec![2024] },
             },
             None,
@@ -215,7 +217,7 @@ impl Prop for C02 {
         // import trees (C10's catalogue): single declarations at every width, ordered pairs at three widths,
         // under every granularity / grouping / reordering configuration
         let trees = super::c10::TREES;
-        let np = if thorough { trees.len() } else { 30 };
+        let np = if thorough { 40 } else { 30 };
         let mut seqs: Vec<(String, String)> = trees.iter().enumerate().map(|(i, t)| (format!("imports/s{i}"), format!("{t}\n"))).collect();
         for i in 0..np {
             for j in 0..np {
@@ -283,7 +285,7 @@ impl Prop for C02 {
         if l0_base {
             let first_ctx = ["@top/", "@impl/", "@fn/", "@let/", "@alias/", "@file/"].iter().any(|c| u.key.contains(c));
             let is_base = u.key.find('[').map_or(true, |i| u.key[i + 1..u.key.find(']').unwrap_or(i + 1)].split(',').all(|c| c == "0" || c.is_empty()));
-            if (tier == Tier::Thorough || (first_ctx && is_base)) && (u.cfg.style_edition == 2024 || tier == Tier::Thorough) {
+            if ((tier == Tier::Thorough && is_base) || (first_ctx && is_base)) && u.cfg.style_edition == 2024 {
                 if let Some(pos) = positions_kinded(&u.text, u.cfg.edition) {
                     // the first Before position of an item and of a statement
                     let mut picked: Vec<usize> = vec![];
@@ -326,6 +328,10 @@ impl Prop for C02 {
             if !(base_form && u.key.ends_with("/L0") && first_ctx && u.cfg.style_edition == 2024) {
                 return;
             }
+        } else if !(super::form_deviations(&u.key) <= 1 && u.cfg.style_edition == 2024 && (base_form || u.key.ends_with("/L0"))) {
+            // thorough: comments on forms with at most one deviating slot, style edition 2024; deviated forms
+            // from the one-line layout only
+            return;
         }
         let Some(pos) = claimed_positions(&u.text, u.cfg.edition, true) else { return };
         for (off, eol) in pos {
